@@ -54,6 +54,29 @@ def val_str(x):
     return "nan" if math.isnan(x) else C.rat_str(x)
 
 
+def ped_cache_factory(ped_cached, reads, counts, harr):
+    """an empty cache of the key type the pedigree wrapper accepts: the pedigree sampler builds its cache inside jitted
+    code, so the harness has to guess the key type — (sample, genotype index) pairs as written, or a single integer;
+    None when neither is accepted (the plain-Python monitors then carry the coverage)"""
+    from numba import types
+    from numba.typed import Dict as NDict
+    probe = np.zeros(1, dtype=np.int64)
+    for make in (lambda: _init(NDict.empty(types.UniTuple(types.int64, 2), types.float64), (-1, -1)),
+                 lambda: _init(NDict.empty(types.int64, types.float64), -1)):
+        c = make()
+        try:
+            ped_cached(reads, counts, harr, 0, probe, c)
+        except Exception:   # noqa: BLE001  (numba TypingError for a key type the wrapper does not use)
+            continue
+        return make()
+    return None
+
+
+def _init(d, key):
+    d[key] = np.nan
+    return d
+
+
 def run(tier, replay=None):
     from mchap.assemble import arraymap
 
@@ -203,7 +226,7 @@ def run(tier, replay=None):
             genos = sorted({tuple(sorted(r.randrange(n_haps) for _ in range(ploidy))) for _ in range(600)}
                            | {tuple(sorted([r.randrange(n_haps)] + [r.randrange(max(1, n_haps - 3), n_haps) for _ in range(ploidy - 1)])) for _ in range(300)})
         cache = NDict.empty(types.int64, types.float64); cache[-1] = np.nan
-        pcache = NDict.empty(types.UniTuple(types.int64, 2), types.float64); pcache[(-1, -1)] = np.nan
+        pcache = ped_cache_factory(ped_cached, reads, counts, harr)
         fresh = {}
         order = list(genos); r.shuffle(order)
         bad = None
@@ -214,7 +237,7 @@ def run(tier, replay=None):
                     fresh[g] = float(log_likelihood_alleles(reads, counts, harr, arr))
                 perm = arr.copy(); np.random.shuffle(perm)   # the wrapper sorts before keying
                 v1 = float(call_cached(reads, counts, harr, perm, cache))
-                v2 = float(ped_cached(reads, counts, harr, 0, arr, pcache))
+                v2 = float(ped_cached(reads, counts, harr, 0, arr, pcache)) if pcache is not None else fresh[g]
                 if bad is None and not (C.close_log(v1, fresh[g]) and C.close_log(v2, fresh[g])):
                     bad = (g, v1, v2, fresh[g], rnd)
             r.shuffle(order)
@@ -224,6 +247,42 @@ def run(tier, replay=None):
             chk.violation("a likelihood served from the call / call-pedigree genotype cache differs from the freshly computed likelihood",
                           {"ploidy": ploidy, "n_haplotypes": n_haps, "genotype": list(bad[0]), "calling_cached": bad[1], "pedigree_cached": bad[2],
                            "fresh": bad[3], "pass": bad[4], "n_genotypes_cached": len(genos)}, "C09/dict-cache/served-value")
+
+    # ------------------------------------------------------------------ (ii-c) one pedigree cache shared by samples of different ploidy
+    for trial in range({"warm": 1, "quick": 6, "thorough": 40}[tier]):
+        n_haps = r.choice([3, 4, 5]); nb = 3
+        seen, haps = set(), []
+        for _ in range(60):
+            h = tuple(r.randrange(2) for _ in range(nb))
+            if h not in seen:
+                seen.add(h); haps.append(h)
+            if len(haps) == n_haps:
+                break
+        harr = np.array(haps, dtype=np.int8); n_haps = len(haps)
+        ploidies = [r.choice([2, 3, 4, 6]) for _ in range(r.randint(3, 5))]
+        if trial % 2 == 0:
+            ploidies.sort(reverse=True)
+        per_sample = [G.gen_reads(r, [2] * nb, r.randint(1, 6), haps=[list(haps[0]), list(haps[-1])], gap=0.1, style="encoded") for _ in ploidies]
+        pc = ped_cache_factory(ped_cached, per_sample[0][0], per_sample[0][1], harr)
+        if pc is None:
+            chk.count("ped-shared-cache:key-type-unknown")
+            break
+        todo = [(s_, g) for s_, pl in enumerate(ploidies) for g in itertools.combinations_with_replacement(range(n_haps), pl)]
+        bad = None
+        for rnd in range(2):
+            r.shuffle(todo)
+            for s_, g in todo:
+                arr = np.array(g, dtype=np.int64)
+                rd, ct = per_sample[s_]
+                want = float(log_likelihood_alleles(rd, ct, harr, arr))
+                got = float(ped_cached(rd, ct, harr, s_, arr, pc))
+                if bad is None and not C.close_log(got, want):
+                    bad = {"sample": s_, "ploidies": ploidies, "n_haplotypes": n_haps, "genotype": list(g), "served": got, "fresh": want, "pass": rnd}
+        chk.count("ped-shared-cache")
+        chk.case(("ped-shared-cache", tuple(ploidies), n_haps), len(set(ploidies)) > 1)
+        if bad is not None:
+            chk.violation("the pedigree likelihood cache serves one sample the likelihood of another sample / genotype "
+                          "(one cache shared by samples of different ploidy)", bad, "C09/pedigree/shared-cache-served-value")
 
     # ------------------------------------------------------------------ (iii) monitored plain-Python runs
     scale = {"warm": 0.4, "quick": 1.0, "thorough": 6.0}[tier]
@@ -242,7 +301,10 @@ def run(tier, replay=None):
     chk.extra["nojit_assemble"] = res["assemble"][:6]
     for b in res["bad"]:
         where = b["where"]
-        if where.startswith("pedigree/swap-cache-entry") or where.startswith("pedigree/served-value"):
+        if "mixed ploidy" in where:
+            chk.violation("the pedigree sampler is served a likelihood that is not the likelihood of that sample's genotype and own reads "
+                          "(pedigree with individuals of different ploidy sharing the cache)", b, "C09/pedigree/served-value-mixed-ploidy")
+        elif where.startswith("pedigree/swap-cache-entry") or where.startswith("pedigree/served-value"):
             sig = "C09/pedigree/swap-read-mask" if True else None
             chk.violation("pedigree likelihood cache holds / serves a value that is not the likelihood of that sample's own reads "
                           "(the parental allele swap masks the second parent's reads with the first parent's read counts)", b, sig)
